@@ -223,6 +223,11 @@ def run(ctx):
               "for val in mapping_order.values(): if val in removed_columns: solution.insert(val, 0.)",
               "dropped cells are not re-inserted as 0 at their own column index")
 
+    # ================================================================== built from the current tensions
+    ctx.clause("the pressure system is assembled anew at every build (its right-hand side reads the tensions of that moment)")
+    rules.fresh_build(ctx, "pressure")
+
+
 
 _P, _G, _E = "forsys/pmatrix.py", "forsys/general_matrix.py", "forsys/edge.py"
 PINNED = [
